@@ -762,3 +762,82 @@ func init() {
 		r.Check(wit == nil, "FlushAllDirtyPages:every-dirty-page-is-collected", "every page found dirty is put on the list of pages to flush", "a dirty page can be skipped: "+w.DescribeWitness(fn, wit))
 	})
 }
+
+func init() {
+	reg("C13-R11", "pin accounting of resident pages: FetchPage's cache-hit path (a page returned without ReadPage) increments the pin count and tells the replacer (Pin) before the pool mutex is released; UnpinPage decrements the pin count, and offers the frame for eviction (replacer.Unpin) only on the side of a test on which the pin count is not positive — a frame that someone still has pinned is never evictable", func(w *World, r *Report) {
+		a := w.A()
+		incPin := w.MethodObj("storage/page", "Page", "IncPinCount")
+		decPin := w.MethodObj("storage/page", "Page", "DecPinCount")
+		pinCnt := w.MethodObj("storage/page", "Page", "PinCount")
+		rPin := w.MethodObj("storage/buffer", "ClockReplacer", "Pin")
+		rUnpin := w.MethodObj("storage/buffer", "ClockReplacer", "Unpin")
+		fetch := w.SSA(a.BPMFetch)
+		// returns of a page (non-nil result) that are not preceded by ReadPage = cache hit
+		dmRead := w.family(a.DMReadPage)
+		isRead := func(in ssa.Instruction) bool {
+			c, ok := in.(ssa.CallInstruction)
+			return ok && CalleeObj(c) != nil && (dmRead[CalleeObj(c)] || dmRead[CalleeObj(c).Origin()])
+		}
+		isPageRet := func(in ssa.Instruction) bool {
+			ret, ok := in.(*ssa.Return)
+			if !ok || len(ret.Results) != 1 {
+				return false
+			}
+			c, isConst := retOperand(ret, 0).(*ssa.Const)
+			return !(isConst && c.IsNil())
+		}
+		getFrame := InstrCallsObj(a.BPMGetFrameID)
+		for _, what := range []struct {
+			name string
+			obj  *types.Func
+		}{{"pin-count-incremented", incPin}, {"replacer-told", rPin}} {
+			wit := (&PathQ{Fn: fetch, Avoid: func(in ssa.Instruction) bool { return isRead(in) || getFrame(in) || InstrCallsObj(what.obj)(in) }, Target: isPageRet}).FromEntry()
+			r.Check(wit == nil, "FetchPage:cache-hit:"+what.name, "a resident page is handed out only after "+what.obj.Name()+" was called", "path returning a resident page without it: "+w.DescribeWitness(fetch, wit))
+		}
+		// UnpinPage
+		un := w.SSA(a.BPMUnpin)
+		sitesU := sitesCalling(un, rUnpin)
+		r.Floor("replacer.Unpin sites in UnpinPage", len(sitesU), 1)
+		wit := (&PathQ{Fn: un, Avoid: InstrCallsObj(decPin), Target: InstrCallsObj(rUnpin)}).FromEntry()
+		r.Check(wit == nil, "UnpinPage:decrements-before-offering", "the pin count is decremented before the frame is offered for eviction", "path: "+w.DescribeWitness(un, wit))
+		// the guard: a comparison of PinCount() with 0; remove the edge on which the count is <= 0
+		zeroSide := func(b *ssa.BasicBlock, succ int) bool {
+			i := blockIf(b)
+			if i == nil {
+				return false
+			}
+			v, neg := condBase(i.Cond)
+			bo, ok := v.(*ssa.BinOp)
+			if !ok {
+				return false
+			}
+			isCnt := func(x ssa.Value) bool { return IsCallTo(pinCnt)(stripConv(x)) }
+			isZero := func(x ssa.Value) bool {
+				cv, ok := constOf(x)
+				if !ok {
+					return false
+				}
+				iv, ok := constant.Int64Val(constant.ToInt(cv))
+				return ok && iv == 0
+			}
+			var nonPositiveWhenTrue bool
+			switch {
+			case isCnt(bo.X) && isZero(bo.Y) && (bo.Op == token.LEQ || bo.Op == token.EQL):
+				nonPositiveWhenTrue = true
+			case isCnt(bo.X) && isZero(bo.Y) && (bo.Op == token.GTR || bo.Op == token.NEQ):
+				nonPositiveWhenTrue = false
+			case isZero(bo.X) && isCnt(bo.Y) && (bo.Op == token.GEQ || bo.Op == token.EQL):
+				nonPositiveWhenTrue = true
+			case isZero(bo.X) && isCnt(bo.Y) && (bo.Op == token.LSS || bo.Op == token.NEQ):
+				nonPositiveWhenTrue = false
+			default:
+				return false
+			}
+			binTrue := (succ == 0) != neg
+			return binTrue == nonPositiveWhenTrue
+		}
+		r.Floor("tests of the pin count against zero in UnpinPage", countCutEdges(un, []EdgeCut{zeroSide}), 1)
+		wit = (&PathQ{Fn: un, Cut: []EdgeCut{zeroSide}, Target: InstrCallsObj(rUnpin)}).FromEntry()
+		r.Check(wit == nil, "UnpinPage:offered-only-when-unpinned", "the frame is offered for eviction only when its pin count is not positive", "replacer.Unpin reachable with a positive pin count: "+w.DescribeWitness(un, wit))
+	})
+}
